@@ -52,6 +52,16 @@ class Run:
         self.rules_run: List[str] = []
         self.explanations: List[str] = []
         self.assumptions: List[str] = []
+        self.analysis_errors: List[str] = []
+
+    def rule(self, fn, *args, **kw):
+        """run one rule; a rule that cannot analyse what it finds (vanished anchor, unknown idiom, floor) is recorded and
+        the other rules still run - violations found by them are not lost"""
+        try:
+            return fn(*args, **kw)
+        except AnalysisError as e:
+            self.analysis_errors.append(str(e))
+            return None
 
     @property
     def thorough(self):
@@ -89,6 +99,8 @@ class Run:
         return ok
 
     def floor(self, rule: str, what: str, count: int, minimum: int):
+        if count is None:
+            return          # the rule that was to produce the count already failed (recorded)
         if count < minimum:
             raise AnalysisError(f"{rule}: instance floor not met for {what}: found {count}, need >= {minimum} "
                                 f"(the rule would pass vacuously)")
@@ -144,8 +156,10 @@ def finish(run: Run, write: bool = True) -> int:
         for v in new:
             print(f"[{v.rule}] {v.loc} {v.where}: {v.message}")
             print(f"VIOLATION property={run.prop} replay=<not written: --no-evidence>")
+        for e in run.analysis_errors:
+            print(f"ANALYSIS-ERROR property={run.prop}: {e}")
         print(f"{run.prop} [{run.tier}]: {len(run.obligations)} obligations, {len(new)} new violation(s) (no evidence written)")
-        return 1 if new else 0
+        return 1 if new else (2 if run.analysis_errors else 0)
     if os.path.isdir(vdir):
         for fn in os.listdir(vdir):
             try:
@@ -203,7 +217,8 @@ def finish(run: Run, write: bool = True) -> int:
             "known_findings": [{"id": e.get("id"), "rule": v.rule, "where": v.where, "construct": v.construct}
                                for v, e in listed],
             "new_violations": [v.to_json() for v in new],
-            "exhaustive": True,
+            "exhaustive": not run.analysis_errors,
+            "analysis_errors": run.analysis_errors,
             "repo_digest": run.repo.digest,
         },
         "assumptions": run.assumptions or [
@@ -215,7 +230,9 @@ def finish(run: Run, write: bool = True) -> int:
     }
     with open(os.path.join(EVIDENCE_DIR, f"{run.prop}.json"), "w") as f:
         json.dump(ev, f, indent=1)
+    for e in run.analysis_errors:
+        print(f"ANALYSIS-ERROR property={run.prop}: {e}")
     print(f"{run.prop} [{run.tier}]: {len(obs)} obligations, {discharged} discharged, "
           f"{len(listed)} known finding(s), {len(new)} new violation(s), "
           f"{len(run.functions_analysed)} functions, {ev['wall_s']}s")
-    return 1 if new else 0
+    return 1 if new else (2 if run.analysis_errors else 0)
